@@ -38,7 +38,7 @@ theorem ofList_map_range (idx : Idx) (n i : Nat) (hi : i < n) : ofList ((List.ra
 
 /-! ### leaf: `underlying_array[subscript] = data` -/
 
-theorem leaf_routes {α : Type} (id : Nat) (s : List Nat) (ts : List NSlice) (hts : NormalSub s ts)
+theorem leaf_routes {α : Type} [Parts α] (id : Nat) (s : List Nat) (ts : List NSlice) (hts : NormalSub s ts)
     (d : Arr α) (hd : d.shape = ts.map NSlice.count) (hl : d.Local) :
     Routes (Seg.leaf id s).fullSrc ts d ((Seg.leaf id s).write ts d) := by
   obtain ⟨htl, _⟩ := (normalSub_iff _ _).1 hts
